@@ -82,14 +82,15 @@ variable {n m : Nat} {nb : Nbrs} {rf : Nat} {r : IR.St}
 set_option linter.unusedVariables false in
 include hnb in
 /-- any other leaf -/
-theorem dfs_leaf_other (lv : List (Nat × Nat)) (s s1 : LS) (gh : Gh) (hI : MInv n m nb s)
+theorem dfs_leaf_other_v (lv : List (Nat × Nat)) (s s1 : LS) (gh : Gh) (hI : MInv n m nb s)
     (hlv : LevelsOK s.op s.path s.choices lv) (hleaf : s.op.binDividers.len = n)
     (hJ : CertM n m nb lv false s) (h : DNodev n nb rf r gh lv s) (hs1 : leafNode n m s = .ok s1)
     (hJ1 : CertA n m nb lv s1)
     (hc1 : (compare s.op.value.toList s.currentBest.toList == 1 || s.count + 1 == 1) = false)
     (hc0 : (compare s.op.value.toList s.currentBest.toList == 0) = false)
     (hcf : (compare s.op.value.toList s.firstLeaf.toList == 0) = false) :
-    ∃ lv1, LevelsOK s1.op s1.path s1.choices lv1 ∧ DA n nb rf r lv1 s1 := by
+    s1 = { s with count := s.count + 1 } ∧ LevelsOK s1.op s1.path s1.choices lv ∧
+      DAv n nb rf r { gh with vs := gh.vs.dropLast } lv s1 := by
   obtain ⟨hw, hG, hcov, haux, hoff⟩ := h
   have hc := hI.core
   obtain ⟨hvc, hspl⟩ := leaf_clean hc.part hleaf (hJ.2.2.1 rfl)
@@ -106,7 +107,7 @@ theorem dfs_leaf_other (lv : List (Nat × Nat)) (s s1 : LS) (gh : Gh) (hI : MInv
     rw [List.dropLast_eq_take, h3]; rfl
   have htake : ∀ L, L < s.path.length → gh.vs.dropLast.take L = gh.vs.take L :=
     fun L hL => take_dropLast gh.vs (by omega)
-  refine ⟨lv, hlv, { gh with vs := gh.vs.dropLast }, ?_, ?_, ?_, ?_, ?_⟩
+  refine ⟨rfl, hlv, ?_, ?_, ?_, ?_, ?_⟩
   · have := walk_truncate (s' := { s with count := s.count + 1 }) 0 hc.part hc.age (Nat.zero_le _)
       (fun hne => List.length_pos_iff.2 hne) rfl rfl rfl hw
     rw [← hdl] at this
@@ -127,6 +128,21 @@ theorem dfs_leaf_other (lv : List (Nat × Nat)) (s s1 : LS) (gh : Gh) (hI : MInv
     have := (hoff hcnt).1
     rw [hvs] at this
     exact this (by simp)
+
+
+set_option linter.unusedVariables false in
+include hnb in
+/-- any other leaf -/
+theorem dfs_leaf_other (lv : List (Nat × Nat)) (s s1 : LS) (gh : Gh) (hI : MInv n m nb s)
+    (hlv : LevelsOK s.op s.path s.choices lv) (hleaf : s.op.binDividers.len = n)
+    (hJ : CertM n m nb lv false s) (h : DNodev n nb rf r gh lv s) (hs1 : leafNode n m s = .ok s1)
+    (hJ1 : CertA n m nb lv s1)
+    (hc1 : (compare s.op.value.toList s.currentBest.toList == 1 || s.count + 1 == 1) = false)
+    (hc0 : (compare s.op.value.toList s.currentBest.toList == 0) = false)
+    (hcf : (compare s.op.value.toList s.firstLeaf.toList == 0) = false) :
+    ∃ lv1, LevelsOK s1.op s1.path s1.choices lv1 ∧ DA n nb rf r lv1 s1 := by
+  obtain ⟨_, h1, h2⟩ := dfs_leaf_other_v hnb lv s s1 gh hI hlv hleaf hJ h hs1 hJ1 hc1 hc0 hcf
+  exact ⟨lv, h1, _, h2⟩
 
 end
 end CanonF
